@@ -3,4 +3,5 @@
 From BG Require Import Base DirectedModel DirectedSpec UndirectedModel UndirectedSpec MultiModel WeightedModel MultiSpec ForcedSpec Instances.
 From Coq Require Extraction ExtrOcamlBasic.
 Extraction Language OCaml.
-Extraction "model.ml" pinned repaired d_trace d_spec_trace u_trace_z u_spec_trace dm_trace_z um_trace_z dw_trace_z uw_trace_z m_spec_trace w_spec_trace d_fspec_trace u_fspec_trace m_fspec_trace w_fspec_trace.
+Extraction "model.ml" pinned repaired d_trace d_spec_trace u_trace_z u_spec_trace dm_trace_z um_trace_z dw_trace_z uw_trace_z m_spec_trace w_spec_trace d_fspec_trace u_fspec_trace m_fspec_trace w_fspec_trace
+  d_eq_case d_eq_spec u_eq_case u_eq_spec dm_eq_case um_eq_case dw_eq_case uw_eq_case m_eq_spec w_eq_spec.
